@@ -53,6 +53,17 @@ def build_fa(case, cls="enfa", scheme="int", symvals=None, via="add"):
     starts = [nm[i] for i in range(n) if st >> i & 1]
     finals = [nm[i] for i in range(n) if fi >> i & 1]
     tr = [(nm[p], "epsilon" if s == 0 else sv[s], nm[q]) for p, s, q in trans]
+    if via == "ctor_tf_partial":
+        # a ready-made transition function plus declared states / symbols that name only part of what it uses
+        tf = m.TransitionFunction() if cls == "dfa" else m.NondeterministicTransitionFunction()
+        for p, s, q in tr:
+            tf.add_transition(m.State(p), m.Epsilon() if s == "epsilon" else m.Symbol(s), m.State(q))
+        part = {sv[1]}
+        if cls == "dfa":
+            return klass(states={nm[0]}, input_symbols=part, transition_function=tf,
+                         start_state=starts[0] if starts else None, final_states=set(finals))
+        return klass(states={nm[0]}, input_symbols=part, transition_function=tf, start_state=set(starts),
+                     final_states=set(finals))
     if via == "ctor_tf_only":
         # the transition function, the start and the final states only: states and symbols are whatever they mention
         tf = m.TransitionFunction() if cls == "dfa" else m.NondeterministicTransitionFunction()
